@@ -510,6 +510,18 @@ func (m *hdMcu) create(ctx context.Context, o *hdMcuObj) (*hdMcuObj, error) {
 	return o, nil
 }
 
+// firstPending returns tok if it is pending, or the oldest pending token for tok == 0.
+func (m *hdMcu) firstPending(tok int) int {
+	m.mu.Lock()
+	defer m.mu.Unlock()
+	for _, p := range m.pending {
+		if tok == 0 || p.tok == tok {
+			return p.tok
+		}
+	}
+	return 0
+}
+
 func (m *hdMcu) release(tok int, result string) bool {
 	m.mu.Lock()
 	defer m.mu.Unlock()
@@ -652,6 +664,7 @@ type hdSystem struct {
 	unsettled int
 	syncSeq  int
 	asyncBus bool // cases with explicit Deliver ops
+	rpc      *GrpcClients
 }
 
 const hdInternalSecret = "the-internal-secret-of-the-harness"
@@ -696,7 +709,13 @@ func newHdSystem(t *testing.T, backends []hdBackendCfg) *hdSystem {
 	config.AddOption("geoip", "url", "none")
 
 	r := mux.NewRouter()
-	h, err := NewHub(config, s.events, nil, nil, nil, r, "verif")
+	// as in server/main.go the hub always has a (here: empty) set of GRPC clients
+	rpcClients, err := NewGrpcClients(config, nil, nil, "verif")
+	if err != nil {
+		t.Fatal(err)
+	}
+	s.rpc = rpcClients
+	h, err := NewHub(config, s.events, nil, rpcClients, nil, r, "verif")
 	if err != nil {
 		t.Fatal(err)
 	}
@@ -777,6 +796,7 @@ func (s *hdSystem) close() {
 	<-s.loopDone
 	s.hub.Stop()
 	s.hub.backend.Close()
+	s.rpc.Close()
 	s.server.Close()
 	s.backend.server.Close()
 }
